@@ -78,6 +78,16 @@ def run(ctx, host=None):
     S = Summaries(ctx)
     from .common import session_lifecycle
     session_lifecycle(ctx, chk, R5)
+    from .common import single_connection_per_handle
+    single_connection_per_handle(ctx, chk, R5)
+
+    # the fallback pass serves what it finds: request = index | loose | refreshed index | MISSING, each key in exactly one class (rule shared with C02.R2)
+    R6 = chk.rule('C08.R6', 'the keys recovered by the refreshed lookup are served, and only the keys still not found are reported missing (funnel partition)', 2)
+    from .c02 import funnel_partition
+    funnel_partition(ctx, chk, R6, 'C08.R6')
+    # the loose listing a long-open handle compares with the index is taken from the file system on every call (no per-handle cache of directory listings)
+    from .common import listing_not_cached
+    listing_not_cached(ctx, chk, R2)
 
     # R1
     for ws in (True, False):
